@@ -102,9 +102,11 @@ def run_property(prop: str, tier: str) -> int:
                 for kk, vv in (o2.get("smt") or {}).items():
                     o["smt"][kk] = o["smt"].get(kk, 0) + vv
     extras = []
+    if tier == "thorough" and not os.environ.get("PYVC_SELFTEST_CHILD"):
+        extras += seed_selftest(prop)
     if hasattr(mod, "extras"):
         try:
-            extras = mod.extras(tier, seed)
+            extras += mod.extras(tier, seed)
         except BaseException as e:  # noqa
             extras = [dict(name=f"{prop}/extras", status="error", detail=f"{type(e).__name__}: {e}\n{traceback.format_exc(limit=8)}",
                            backend="", time_s=0.0)]
@@ -213,8 +215,9 @@ def report(prop, tier, seed, mod, outs, extras, wall) -> int:
                       explanation=getattr(mod, "EXPLANATION", ""), verdict=status, errors=errors[:20]),
         assumptions=sorted(assumptions | set(getattr(mod, "ASSUMPTIONS", []))),
         wall_s=round(wall, 2), violations=len(violations))
-    os.makedirs(os.path.join(ROOT, "evidence"), exist_ok=True)
-    with open(os.path.join(ROOT, "evidence", f"{prop}.json"), "w") as fh:
+    evdir = os.environ.get("PYVC_EVIDENCE_DIR", os.path.join(ROOT, "evidence"))
+    os.makedirs(evdir, exist_ok=True)
+    with open(os.path.join(evdir, f"{prop}.json"), "w") as fh:
         json.dump(ev, fh, indent=1, default=str)
     print(f"{prop} [{tier}] obligations={obligations} discharged={discharged} violations={len(violations)} "
           f"undecided={len(undecided)} errors={len(errors)} known={len(known_hit)} wall={wall:.1f}s -> {status}")
@@ -229,6 +232,48 @@ def report(prop, tier, seed, mod, outs, extras, wall) -> int:
     if undecided:
         return 2
     return 0
+
+
+def seed_selftest(prop):
+    """Thorough tier: every seeded property-breaking change recorded under /verif/seeded for this property is applied to a
+    scratch copy of the repository (outside /repo and /verif, removed afterwards) and the quick check must report a
+    violation there.  A seed that is no longer detected is a checker regression (status error)."""
+    import shutil
+    import tempfile
+
+    out = []
+    sdir = os.path.join(ROOT, "seeded")
+    if not os.path.isdir(sdir):
+        return out
+    repo = os.environ.get("PYVC_REPO", "/repo")
+    for sid in sorted(os.listdir(sdir)):
+        meta_p = os.path.join(sdir, sid, "meta.json")
+        if not os.path.exists(meta_p):
+            continue
+        meta = json.load(open(meta_p))
+        if meta.get("property") != prop:
+            continue
+        t0 = time.time()
+        scratch = tempfile.mkdtemp(prefix=f"pyvc_selftest_{sid}_")
+        try:
+            for sub in ("src", "tests"):
+                shutil.copytree(os.path.join(repo, sub), os.path.join(scratch, sub), ignore=shutil.ignore_patterns("__pycache__"))
+            p = subprocess.run(["git", "apply", "--whitespace=nowarn", os.path.join(sdir, sid, "patch.diff")], cwd=scratch, capture_output=True, text=True)
+            if p.returncode != 0:
+                out.append(dict(name=f"{prop}/selftest/{sid}", status="error", bounded=True, bound="seed patch no longer applies", detail=p.stderr[-300:],
+                                backend="self-test", time_s=round(time.time() - t0, 1)))
+                continue
+            env = dict(os.environ, PYVC_REPO=scratch, PYVC_SELFTEST_CHILD="1", PYVC_EVIDENCE_DIR=os.path.join(scratch, "evidence"))
+            env.pop("PYVC_BOTH_BACKENDS", None)
+            q = subprocess.run(["python3-vt", "-m", "pyvc.cli", prop, "--tier", "quick"], cwd=ROOT, capture_output=True, text=True, env=env, timeout=3000)
+            detected = q.returncode == 1 and "VIOLATION" in q.stdout
+            out.append(dict(name=f"{prop}/selftest/{sid}", status="discharged" if detected else "error", bounded=True,
+                            bound="seeded change applied to a scratch copy: the quick check must report a violation", cases=1, nontrivial=1 if detected else 0,
+                            detail=("detected: " + [l for l in q.stdout.splitlines() if l.startswith("VIOLATION")][0][:200]) if detected else
+                            ("NOT detected (exit %d): " % q.returncode + q.stdout[-300:]), backend="self-test", time_s=round(time.time() - t0, 1)))
+        finally:
+            shutil.rmtree(scratch, ignore_errors=True)
+    return out
 
 
 def _structural_replay(prop, r) -> str:
